@@ -610,6 +610,56 @@ def createBlock (s : State) (txns : List Txn) (when_ : Nat) : R (List Txn × Nat
   let some fee := sumU64? fees | .error "block-fees"
   .ok (txns2, fee)
 
+/-! ### balance view (Visor.GetBalanceOfAddresses) -/
+
+/-- UxArray.CoinHours: per-output accrued hours, summed with overflow check -/
+def uaHours (t : Nat) : List Ux → Nat → R Nat
+  | [], acc => .ok acc
+  | u :: us, acc => match coinHours u t with
+    | .error e => .error e
+    | .ok h => match addU64? acc h with
+      | none => .error "uxarray-hours-ovf"
+      | some a => uaHours t us a
+
+structure Bal where
+  cc : Nat
+  ch : Nat
+  pc : Nat
+  ph : Nat
+deriving Repr, DecidableEq, Inhabited
+
+/-- the predicted outputs of the pool for one address: `coin.CreateUnspent(head, txn, i)` — their ids are
+derived with a zero source hash while the head is the genesis block -/
+def incomingOf (s : State) (a : Addr) : List Ux :=
+  (s.pool.flatMap fun e => e.txn.outs.filter (·.addr == a)).map fun o =>
+    { id := if headSeq s == 0 then o.cid else o.id, addr := o.addr, coins := o.coins, hours := o.hours,
+      time := headTime s, seq := headSeq s, src := "" }
+
+/-- one address of GetBalanceOfAddresses, given the outputs the pool spends -/
+def balanceOf (s : State) (spentAll : List Ux) (a : Addr) : R Bal := do
+  let uxs ← getArray s.unspent (aidxGet s.aidx a)
+  let outIds := (spentAll.filter (·.addr == a)).map (·.id)
+  let kept := uxs.filter fun u => !outIds.contains u.id           -- uxs.Sub(outUxs)
+  let keptIds := kept.map (·.id)
+  let predicted := kept ++ (incomingOf s a).filter fun u => !keptIds.contains u.id   -- .Add(inUxs)
+  let some cc := sumU64? (uxs.map (·.coins)) | .error "bal-coins-ovf"
+  let ch ← (match uaHours (headTime s) uxs 0 with
+    | .ok h => (.ok h : R Nat)
+    | .error e => if e == "coinhours-add-ovf" then .ok 0 else .error e)
+  let some pc := sumU64? (predicted.map (·.coins)) | .error "bal-coins-ovf"
+  match uaHours (headTime s) predicted 0 with
+  | .ok ph => .ok { cc := cc, ch := ch, pc := pc, ph := ph }
+  | .error e =>
+    -- as the code does: on this overflow it zeroes the CONFIRMED hours variable and reports predicted hours 0
+    if e == "coinhours-add-ovf" then .ok { cc := cc, ch := 0, pc := pc, ph := 0 } else .error e
+
+/-- Visor.GetBalanceOfAddresses: fails as a whole when an input of a pooled transaction is not unspent -/
+def balances (s : State) (addrs : List Addr) : R (List (Addr × Bal)) := do
+  let spentAll ← getArray s.unspent (s.pool.flatMap (·.txn.ins))
+  addrs.mapM fun a => do
+    let b ← balanceOf s spentAll a
+    pure (a, b)
+
 /-! ### block synchronisation (daemon GiveBlocksMessage / AnnounceBlocksMessage / GetBlocksMessage) -/
 
 /-- GiveBlocksMessage.process: skip blocks at or below the head sequence AS OF THE START of the message,
